@@ -101,6 +101,9 @@ def make_element(name, cell, gdim, tp=False):
             return el("CR", cell, 1)
         if name == "TH":
             return basix.ufl.mixed_element([el("P", cell, 2, shape=(gdim,)), el("P", cell, 1)])
+        if name == "vP1xP1":
+            # equal-order pair: sub-elements of equal scalar dimension but different block sizes
+            return basix.ufl.mixed_element([el("P", cell, 1, shape=(gdim,)), el("P", cell, 1)])
         if name == "RTxDG0":
             if tdim < 2 or cell == "prism":
                 raise Inapplicable("RT needs tdim >= 2")
@@ -111,6 +114,26 @@ def make_element(name, cell, gdim, tp=False):
             return basix.ufl.real_element(cell, ())
         if name == "Quad2":
             return basix.ufl.quadrature_element(cell, degree=2)
+        if name == "iso1":
+            if cell == "interval" or cell == "prism":
+                raise Inapplicable("macro element: basix tabulates the interval iso element with overflowing values; no prism")
+            return el("iso", cell, 1)
+        if name == "S2":
+            if cell not in ("quadrilateral", "hexahedron"):
+                raise Inapplicable("serendipity on quadrilaterals/hexahedra")
+            return el("S", cell, 2)
+        if name == "Bubble":
+            if cell not in SIMPLEX:
+                raise Inapplicable("bubble on simplices")
+            return el("Bubble", cell, tdim + 1)
+        if name == "N2curl1":
+            if cell not in ("triangle", "tetrahedron"):
+                raise Inapplicable("N2curl on simplices")
+            return el("N2curl", cell, 1)
+        if name == "nested":
+            return basix.ufl.mixed_element([basix.ufl.mixed_element([el("P", cell, 1, shape=(gdim,)), el("DG", cell, 0)]), el("P", cell, 2)])
+        if name == "vReal":
+            return basix.ufl.real_element(cell, (2,))
     except Inapplicable:
         raise
     except Exception as e:  # basix refuses the combination
@@ -120,8 +143,8 @@ def make_element(name, cell, gdim, tp=False):
 
 ELEMENT_DEGREE = {"P1": 1, "P2": 2, "P3": 3, "DG0": 0, "DG1": 1, "DG2": 2, "P1+B": 3, "vP1": 1, "vP2": 2, "vDG1": 1, "symP1": 1,
                   "tDG1": 1, "N1curl1": 1, "N1curl2": 2, "RT1": 1, "RT2": 2, "BDM1": 1, "Regge1": 1, "HHJ1": 1, "CR1": 1, "TH": 2,
-                  "RTxDG0": 1, "P1xR": 1, "Real": 0, "Quad2": 0}
-DISCONTINUOUS = {"DG0", "DG1", "DG2", "vDG1", "tDG1", "Quad2", "RTxDG0", "N1curl1", "N1curl2", "RT1", "RT2", "BDM1", "Regge1", "HHJ1", "CR1"}
+                  "RTxDG0": 1, "P1xR": 1, "Real": 0, "Quad2": 0, "vP1xP1": 1, "iso1": 1, "S2": 2, "Bubble": 3, "N2curl1": 1, "nested": 2, "vReal": 0}
+DISCONTINUOUS = {"DG0", "DG1", "DG2", "vDG1", "tDG1", "Quad2", "RTxDG0", "N1curl1", "N1curl2", "RT1", "RT2", "BDM1", "Regge1", "HHJ1", "CR1", "N2curl1", "nested"}
 
 
 # ---------------------------------------------------------------------------------------------------
@@ -220,7 +243,7 @@ def build(cfg) -> Built:
         shape = w.ufl_shape
         if op == "val":
             return w
-        if name in ("Real", "Quad2"):
+        if name in ("Real", "Quad2", "vReal"):
             raise Inapplicable("no derivatives of real/quadrature elements")
         if op == "grad":
             return ufl.grad(w)
@@ -233,7 +256,7 @@ def build(cfg) -> Built:
                 raise Inapplicable("second derivatives need degree >= 2")
             return ufl.grad(ufl.grad(w))
         if op == "divcurl":
-            if name.startswith("N1curl"):
+            if name.startswith(("N1curl", "N2curl")):
                 if gdim != tdim:
                     raise Inapplicable("curl on manifold")
                 return ufl.curl(w)
@@ -281,7 +304,7 @@ def build(cfg) -> Built:
     elif wrap == "sum2":
         # a second term with the same arguments under another operator and another factor
         if op == "val":
-            if tname in ("Real", "Quad2") or uname in ("Real", "Quad2"):
+            if tname in ("Real", "Quad2", "vReal") or uname in ("Real", "Quad2", "vReal"):
                 raise Inapplicable("no derivative term for real/quadrature elements")
             o2u, o2v = sided(u.dx(0), su, "u"), sided(v.dx(0), sv, "v")
         else:
@@ -308,10 +331,12 @@ def build(cfg) -> Built:
             raise Inapplicable("vertex scheme needs a single facet type")
         md = {"quadrature_rule": "vertex", "quadrature_degree": 1}
     elif quad == "GLL3":
-        if cell in ("triangle", "tetrahedron", "prism") or (itype in ("ds", "dS") and cell in ("tetrahedron", "prism")):
-            raise Inapplicable("GLL on simplices")
+        ent = cell if itype == "dx" else {"interval": "point", "triangle": "interval", "quadrilateral": "interval", "tetrahedron": "triangle",
+                                           "hexahedron": "quadrilateral", "prism": "mixed"}[cell]
+        if ent not in ("interval", "quadrilateral", "hexahedron"):
+            raise Inapplicable("GLL needs an interval/quadrilateral/hexahedron integration entity")
         md = {"quadrature_rule": "GLL", "quadrature_degree": 3}
-    elif quad in ("two", "two1"):
+    elif quad in ("two", "two1", "mix2", "same2"):
         md = None  # handled below
     elif quad != "auto":
         raise KeyError(quad)
@@ -329,7 +354,19 @@ def build(cfg) -> Built:
         m = M(**kw) if sid is None else M(sid, **kw)
         return m
 
-    if quad == "two1":
+    if quad == "same2":
+        # the SAME integrand under two rules of one subdomain (reduced + full rule of one term): both contributions are there
+        form = integrand * meas({"quadrature_degree": 1}) + integrand * meas({"quadrature_degree": 4})
+    elif quad == "mix2":
+        # two DIFFERENT schemes of the SAME degree in one kernel (e.g. lumped mass + consistent term): each integrand keeps its own rule
+        if cell == "prism":
+            raise Inapplicable("no second named scheme for every prism entity type")
+        ecell = cell if itype == "dx" else {"triangle": "interval", "quadrilateral": "interval", "tetrahedron": "triangle", "hexahedron": "quadrilateral", "interval": "point"}[cell]
+        if ecell == "point":
+            raise Inapplicable("point facets have one rule")
+        other = "GLL" if ecell in ("interval", "quadrilateral", "hexahedron") else "Gauss-Jacobi"
+        form = integrand * meas({"quadrature_degree": 2, "quadrature_rule": other}) + (2.0 + c0) * core * meas({"quadrature_degree": 2})
+    elif quad == "two1":
         # a one-point rule next to another rule; the coefficient f appears under both (piecewise for the first, varying for the second)
         ff = f(sf) if itype == "dS" else f
         form = integrand * meas({"quadrature_degree": 1}) + (2.0 + c0) * ufl.cos(ff) * core * meas({"quadrature_degree": 4})
